@@ -990,7 +990,7 @@ namespace BitSerializer::Convert::Utf
 			else if (mStartDataPtr != mEncodedBuffer)
 			{
 				// Squeeze buffer
-				std::memcpy(mEncodedBuffer, mStartDataPtr, mEndDataPtr - mStartDataPtr);
+				std::memmove(mEncodedBuffer, mStartDataPtr, mEndDataPtr - mStartDataPtr);	// The ranges can overlap
 				mEndDataPtr -= mStartDataPtr - mEncodedBuffer;
 				mStartDataPtr = mEncodedBuffer;
 			}
